@@ -209,11 +209,20 @@ def r3_reader(a, tier):
         floor=2,
     )
     q = 'tatsu.packetz.queue.PacketzQueue'
-    fn = a.p.func(f'{q}.receive')
     cls = a.p.cls(q)
+    a.p.func(f'{q}.receive')
+    # every synchronous receiver: a generator method of the queue that decodes lines itself
+    receivers = [m for m in cls.methods.values() if any(isinstance(n, (ast.Yield, ast.YieldFrom)) for n in walk_no_defs(m.node))
+                 and any(isinstance(n, ast.Call) and dotted(n.func).split('.')[-1] == 'unpack' for n in walk_no_defs(m.node))]
+    for fn in sorted(receivers, key=lambda m: m.name):
+        _reader_typestate(a, rep, q, cls, fn)
+    return rep
+
+
+def _reader_typestate(a, rep, q, cls, fn):
     told_writers = {m.name for m in cls.methods.values() if any(
         isinstance(n, (ast.Assign, ast.AugAssign)) and any(norm(t) == 'self._told' for t in (n.targets if isinstance(n, ast.Assign) else [n.target]))
-        for n in walk_no_defs(m.node)) and m.name not in ('__init__', 'receive')}
+        for n in walk_no_defs(m.node)) and m.name not in ('__init__', fn.name)}
 
     class Sem(Semantics):
         def test(self, ex, f, test, state):
@@ -279,13 +288,14 @@ def r3_reader(a, tier):
         if fl in flags:
             rep.fail(fn.qualname, fl, msg, fn.loc)
     if 'partial' not in flags:
-        rep.fail(fn.qualname, 'no-partial-test', 'receive() no longer tests whether the line read ends with a newline: a partially written '
-                 'record is decoded (and skipped as corrupt) instead of being left for the next poll', fn.loc)
-    guard = any(isinstance(n, ast.If) and 'not in self._seen' in norm(n.test) for n in walk_no_defs(fn.node))
-    rep.add({'delivery_guarded_by_seen_set': guard})
+        rep.fail(fn.qualname, 'no-partial-test', f'{fn.name}() does not test whether the line read ends with a newline: a partially written '
+                 'record is decoded (and skipped as corrupt) instead of being left for the next poll, and the offset moves past it', fn.loc)
+    from ..rules.common import always_exits
+    guard = any(isinstance(n, ast.If) and ('not in self._seen' in norm(n.test) or (' in self._seen' in norm(n.test) and always_exits(n.body)))
+                for n in walk_no_defs(fn.node))
+    rep.add({'fn': fn.qualname, 'delivery_guarded_by_seen_set': guard})
     if not guard:
         rep.fail(fn.qualname, 'no-seen-guard', 'delivery is not guarded by `id not in self._seen`', fn.loc)
-    return rep
 
 
 def r4_exception_sets(a, tier):
